@@ -115,7 +115,7 @@ static void run_exact_coverage(uint64_t N) {
       VF_CHECK(covU[sd] >= ONE_SIDED[sd] - COV_TOL_UB[sd], "binomial_bounds|exact-coverage|upper-bound-below-true-count-too-often", ctx(sd));
       if (covL[sd] - ONE_SIDED[sd] < worst[sd]) { worst[sd] = covL[sd] - ONE_SIDED[sd]; worst_th[sd] = th; }
       if (covU[sd] - ONE_SIDED[sd] < worst[3 + sd]) { worst[3 + sd] = covU[sd] - ONE_SIDED[sd]; worst_th[3 + sd] = th; }
-      h = mix64(h, static_cast<uint64_t>(covL[sd] * 1e9) ^ static_cast<uint64_t>(covU[sd] * 1e9));
+      h = mix64(h, dbits(std::floor(covL[sd] * 1e9)) ^ dbits(std::floor(covU[sd] * 1e9)));
     }
     ++cells; if (in_small) ++small_regime;
   }
@@ -164,7 +164,7 @@ static void run_binom(uint64_t ns) {
       VF_CHECK(c.lb[3] == static_cast<double>(ns) && c.ub[3] == static_cast<double>(ns), "binomial_bounds|theta-1|bounds-not-exact", "num_samples=" + std::to_string(ns) + " " + c.to_string());
     }
     if (ns >= 2 && ns <= 120 && theta < 1 - 1e-5) { if (theta < ns / 360.0) ++n_equiv; else ++n_tail; }
-    h = mix64(h, static_cast<uint64_t>(c.lb[2]) ^ (static_cast<uint64_t>(c.ub[2]) << 1));
+    h = mix64(h, dbits(c.lb[2]) ^ (dbits(c.ub[2]) << 1));
   }
   count("grid_binomial_points", n_points);
   count("grid_binomial_equiv_table_branch", n_equiv);
@@ -261,7 +261,7 @@ static void run_icon(uint8_t lg_k) {
       ++n_tiny;
     }
     if (c > sw) ++n_exp;
-    prev = e; prevc = c; h = mix64(h, static_cast<uint64_t>(e));
+    prev = e; prevc = c; h = mix64(h, dbits(e));
     ++n_pts;
   }
   count("grid_icon_points", n_pts); count("grid_icon_tiny_points", n_tiny); count("grid_icon_exponential_branch", n_exp);
@@ -285,7 +285,7 @@ static void run_bitmap(uint8_t lg_k) {
     VF_CHECK(std::isfinite(e) && std::fabs(e - want) <= 1e-9 * std::max(1.0, want) * std::max(1.0, static_cast<double>(lg_k)), "hll|bitmap-estimate|differs-from-k(H_k-H_(k-hits))", ctx());
     VF_CHECK(e >= static_cast<double>(hits) - 1e-9 * hits, "hll|bitmap-estimate|below-hit-count", ctx());
     if (hits > 0) VF_CHECK(e > prev, "hll|bitmap-estimate|not-increasing-in-hits", ctx());
-    prev = e; h = mix64(h, static_cast<uint64_t>(e * 16));
+    prev = e; h = mix64(h, dbits(std::floor(e * 16)));
     ++n_pts;
   }
   count("grid_bitmap_points", n_pts);
@@ -305,7 +305,7 @@ static void run_coupon() {
     auto ctx = [&] { return "coupons=" + std::to_string(c) + " est=" + str(e) + " expected~" + str(want); };
     VF_CHECK(std::isfinite(e) && std::fabs(e - want) <= 1e-4 * dc + 1e-9, "hll|coupon-estimate|differs-from-collision-corrected-count", ctx());
     if (c > 0) VF_CHECK(e > prev, "hll|coupon-estimate|not-increasing-in-coupon-count", ctx());
-    prev = e; h = mix64(h, static_cast<uint64_t>(e * 1024));
+    prev = e; h = mix64(h, dbits(std::floor(e * 1024)));
     ++n_pts;
   }
   count("grid_coupon_points", n_pts);
@@ -345,7 +345,7 @@ static void run_composite(uint8_t lg_k) {
       VF_CHECK(y / prev_y - 1.0 <= 3.0 * (raw / prev_x - 1.0) + 1e-12, "hll|composite-estimate|jump-in-raw-estimate", ctx());
     }
     if (raw > xlast) count("grid_composite_extrapolated_points");
-    prev_x = raw; prev_y = y; ++pts; h = mix64(h, static_cast<uint64_t>(y));
+    prev_x = raw; prev_y = y; ++pts; h = mix64(h, dbits(y));
   }
   count("grid_composite_points", pts);
   sig(h);
